@@ -44,6 +44,16 @@ def check_mode(b, case, ctx, plain, mode):
             return f'T{kind}{n}' + ('\\e' if n % 2 else '')
         return make
 
+    class FalsyCallable(list):
+        """A callback object that is callable but falsy (an empty list subclass, e.g. a recorder of its calls)."""
+
+        def __init__(self, inner):
+            super().__init__()
+            self.inner = inner
+
+        def __call__(self, names):
+            return self.inner(names)
+
     def nohtml_tok(kind):
         import graphviz
         inner = tok(kind)
@@ -56,6 +66,9 @@ def check_mode(b, case, ctx, plain, mode):
     q = lambda: {'table': plain, 'mode': mode}
     if mode == 'token':
         dot = ctx.call('graphviz(token)', q, lambda: lat.graphviz(make_object_label=tok('o'), make_property_label=tok('p')))
+    elif mode == 'falsy-callable':
+        dot = ctx.call('graphviz(falsy callable)', q, lambda: lat.graphviz(make_object_label=FalsyCallable(tok('o')),
+                                                                          make_property_label=FalsyCallable(tok('p'))))
     elif mode == 'nohtml':
         dot = ctx.call('graphviz(nohtml)', q, lambda: lat.graphviz(make_object_label=nohtml_tok('o'),
                                                                     make_property_label=nohtml_tok('p')))
@@ -97,7 +110,7 @@ def check_mode(b, case, ctx, plain, mode):
                 ctx.check(isinstance(text, dotparse.QStr) and text.startswith('<') and text.endswith('>'), 'label-literal', q,
                           lambda: f'label {text!r} on c{i} produced as nohtml("<...>") is not emitted as a quoted literal')
                 text = text[1:-1]
-            if mode in ('token', 'nohtml'):
+            if mode in ('token', 'nohtml', 'falsy-callable'):
                 if text.endswith('\\e'):
                     ctx.check(text[2:-2].isdigit() and int(text[2:-2]) % 2 == 1, 'label-backslash', q,
                               lambda: f'label {text!r} on c{i}: backslash in the callback text was altered')
@@ -112,7 +125,7 @@ def check_mode(b, case, ctx, plain, mode):
             else:
                 ctx.check(text == ' '.join(names), 'label-text', q,
                           lambda: f'label on c{i} is {text!r}, want {" ".join(names)!r}')
-    if mode in ('token', 'nohtml'):
+    if mode in ('token', 'nohtml', 'falsy-callable'):
         ctx.check(len(calls['o']) == len(objs_at) and len(calls['p']) == len(props_at), 'callback-count', q,
                   'label callbacks called a different number of times than there are labelled concepts')
     src = dot.source
@@ -132,7 +145,7 @@ def check_one(case, ctx, deep):
         k = len(b.ref.concepts)
         multi = (any(len(v) >= 2 for v in objs_at.values()) or any(len(v) >= 2 for v in props_at.values())
                  or bool(set(objs_at) & set(props_at)))
-        for mode in ('token', 'nohtml', 'default', 'default-again'):
+        for mode in ('token', 'nohtml', 'falsy-callable', 'default', 'default-again'):
             if rep == 0:
                 ctx.case({'table': plain, 'mode': mode}, k >= 3 and multi,
                          [lib.size_bucket(k), 'mode:' + mode] + (['multi-or-both-labels'] if multi else []))
